@@ -958,6 +958,34 @@ fn judge_nondeg<const D: usize>(cx: &mut Cx<D>, o: &Oracle<D>, rng: &mut Rng, np
     }
 }
 
+/// Gram path (`simplex_volume` for D >= 4): `vol = sqrt(det G) / D!`, `G_ij = e_i . e_j`, `e_i = p_i - p_0`,
+/// determinant by LDLT *without pivoting*, which is documented to report "singular" as soon as a pivot is
+/// `<= 1e-12`. The product of the first k pivots is the k-th leading minor, so when the exact Gram matrix
+/// loses rank only in its last step, a finite answer `v` implies a last pivot
+/// `g = (v D!)^2 / M_{D-1}` (exact leading minor). Returns `g` when that is decidable.
+fn implied_last_gram_pivot<const D: usize>(pts: &[[f64; D]], v: f64) -> Option<f64> {
+    use crate::exact::{Dy, det};
+    if D < 4 || pts.len() != D + 1 || !v.is_finite() {
+        return None;
+    }
+    let e: Vec<Vec<Dy>> = (1..=D).map(|i| (0..D).map(|j| Dy::from_f64(pts[i][j]).sub(&Dy::from_f64(pts[0][j]))).collect()).collect();
+    let dot = |a: &Vec<Dy>, b: &Vec<Dy>| a.iter().zip(b.iter()).fold(Dy::zero(), |acc, (x, y)| acc.add(&x.mul(y)));
+    let g: Vec<Vec<Dy>> = (0..D).map(|i| (0..D).map(|j| dot(&e[i], &e[j])).collect()).collect();
+    let minor = |k: usize| -> Dy { det(&g.iter().take(k).map(|r| r.iter().take(k).cloned().collect::<Vec<Dy>>()).collect::<Vec<_>>()) };
+    for k in 1..D {
+        if minor(k).is_zero() {
+            return None; // rank lost earlier: the later pivots are not determined by the minors
+        }
+    }
+    if !minor(D).is_zero() {
+        return None;
+    }
+    let m = minor(D - 1).approx();
+    let fact: f64 = (1..=D).map(|x| x as f64).product();
+    let d = (v * fact) * (v * fact);
+    if m > 0.0 && d.is_finite() { Some(d / m) } else { None }
+}
+
 fn degenerate_verdict<const D: usize>(cx: &mut Cx<D>, name: &str, eval: &[[f64; D]], r: &Res<f64>, zero_ok: bool) {
     cx.out.count(&format!("judged/degenerate/{}", name));
     match r {
@@ -971,7 +999,16 @@ fn degenerate_verdict<const D: usize>(cx: &mut Cx<D>, name: &str, eval: &[[f64; 
         Res::Ok(x) => {
             let d = cx.doc(name, "degenerate", eval, json!("Err"), json!(format!("Ok({:e})", x)), json!({"value": x}));
             cx.out.count(&format!("degenerate_ok_finite/{}/D{}/{}", name, D, cx.fam));
-            cx.out.violation(P, &format!("degenerate/{}/ok-finite", name), format!("{} returned Ok({:e}) on an exactly degenerate simplex (exact determinant 0); documented behaviour is Err", name, x), d);
+            // the recorded finding (a rounding-noise pivot above the absolute 1e-12 tolerance is accepted) cannot
+            // explain an answer whose implied last pivot lies below that tolerance
+            let below = if name == "simplex_volume" { implied_last_gram_pivot(eval, *x).filter(|g| *g < 1e-13) } else { None };
+            match below {
+                Some(g) => {
+                    cx.out.count("degenerate_ok_finite/implied_pivot_below_tolerance");
+                    cx.out.violation(P, &format!("degenerate/{}/ok-finite-pivot-below-tolerance", name), format!("{} returned Ok({:e}) on an exactly degenerate simplex; the Gram determinant this implies has a last LDLT pivot of about {:e}, below the documented singularity tolerance 1e-12 at which the factorisation reports a degenerate simplex", name, x, g), d);
+                }
+                None => cx.out.violation(P, &format!("degenerate/{}/ok-finite", name), format!("{} returned Ok({:e}) on an exactly degenerate simplex (exact determinant 0); documented behaviour is Err", name, x), d),
+            }
         }
     }
 }
